@@ -559,7 +559,23 @@ def init_differential(ck, root):
                     diffs.append("%s: %s vs %s" % (k, str(a.get(k))[:200], str(b.get(k))[:200]))
         if (rcc0, lines0) != (rcc1, lines1):
             diffs.append("check: exit %s lines %s vs exit %s lines %s" % (rcc0, lines0[:6], rcc1, lines1[:6]))
-        res.append(dict(name=name, init_rc=rci, file_written=made, same=same, diffs=diffs))
+        r = dict(name=name, init_rc=rci, file_written=made, same=same, diffs=diffs)
+        if name == "plain" and made:
+            # an existing file is kept unless --force is given; --config names another place (directories are created)
+            cp = os.path.join(d, ".pyscn.toml")
+            generated = open(cp).read()
+            with open(cp, "w") as f:
+                f.write("# edited by hand\n[complexity]\nmax_complexity = 31\n")
+            rc2, _, err2 = lib.pyscn(["init"], d)
+            kept = open(cp).read().startswith("# edited by hand")
+            rc3, _, _ = lib.pyscn(["init", "--force"], d)
+            forced = open(cp).read()
+            rc4, _, _ = lib.pyscn(["init", "--config", os.path.join("conf", "deep", "custom.toml")], d)
+            cp4 = os.path.join(d, "conf", "deep", "custom.toml")
+            custom = open(cp4).read() if os.path.exists(cp4) else None
+            r["init_again"] = dict(second_exit=rc2, existing_file_kept=kept, second_message=err2.strip()[-160:], force_exit=rc3,
+                                   force_restores_generated=(forced == generated), custom_exit=rc4, custom_same_text=(custom == generated))
+        res.append(r)
         shutil.rmtree(os.path.dirname(d), ignore_errors=True)
     return res
 
@@ -828,6 +844,14 @@ def main(tier):
         if r["init_rc"] != 0 or not r["file_written"]:
             ck.violation("pyscn init did not write .pyscn.toml (exit %s)" % r["init_rc"], replay)
             continue
+        ia = r.get("init_again")
+        if ia:
+            if ia["second_exit"] == 0 or not ia["existing_file_kept"]:
+                n_spec_bad += 1
+                ck.violation("pyscn init on an existing .pyscn.toml without --force: exit %s, file kept: %s" % (ia["second_exit"], ia["existing_file_kept"]), replay)
+            if ia["force_exit"] != 0 or not ia["force_restores_generated"] or ia["custom_exit"] != 0 or not ia["custom_same_text"]:
+                n_spec_bad += 1
+                ck.violation("pyscn init --force / --config <path> does not write the generated default file: %s" % ia, replay)
         if not r["same"]:
             tags = {"part": "init", "project": r["name"]}
             e = ck.match_known(tags)
